@@ -612,6 +612,7 @@ def run_for(ctx, pid):
                 break
     if pid in ("C04", "C06"):
         gc.coq_spec_check(ctx, res)
+        gc.model_spec_check(ctx, res)
     if pid == "C11":
         gc.coq_spec_check(ctx, res, what="wildcards")
     if pid == "C05":
